@@ -91,11 +91,10 @@ Theorem C06_set_monitor_refuted :
 Proof. exact m06_refuted. Qed.
 Print Assumptions C06_set_monitor_refuted.
 
-(** Partial (excluded: active ObjectSets with pairwise distinct local keys and a stored InTransition condition in which a
-    namespace-less key - listed in a local phase of a cluster-scoped ObjectSet, or reported in status.controllerOf of the
-    stored phase object of one of its delegated phases - shares group/kind and name with a DIFFERENT listed key; the
-    first of the two is a spec no API server accepts in full, a kind being either namespaced or not): otherwise the
-    monitor accepts every pass of the model. No uniqueness of the stored ObjectSets is assumed. *)
+(** Partial (excluded: active ObjectSets with pairwise distinct local keys and a stored InTransition condition for which
+    the stored phase object of one of the delegated phases reports, in status.controllerOf, a namespace-less key that
+    shares group/kind and name with a DIFFERENT listed key): otherwise the monitor accepts every pass of the model. No
+    uniqueness of the stored ObjectSets is assumed. *)
 Theorem C06_set_monitor_sound_partial :
   forall c : scase, nsless_refs_literal c = true -> m06 (set_obs_s c (SetCorr.model_run c)) = true.
 Proof. exact m06_sound_partial. Qed.
